@@ -119,6 +119,12 @@ impl EventSource for Timer {
             if registration.token != token {
                 return Ok(PostAction::Continue);
             }
+            if *deadline > Instant::now() {
+                // This expiry was collected before the timer was re-armed (its deadline was moved
+                // and the source updated by another callback of the same dispatch): it is stale.
+                // The new arming is in the wheel and will fire on its own.
+                return Ok(PostAction::Continue);
+            }
             let new_deadline = match callback(*deadline, &mut ()) {
                 TimeoutAction::Drop => return Ok(PostAction::Remove),
                 TimeoutAction::ToInstant(instant) => instant,
